@@ -20,7 +20,7 @@ private def baseOk (b : Int) : Bool := b == 0 || b ≥ 2 || (b ≤ -2 && b ≥ -
 
 private def inpRaw (s : Stream) : List Tok :=
   let a := s.avail
-  if a.length ≥ 4 ∧ (csizeOf (a.take 4)).natAbs > 16777216 then [.err "toobig"] else
+  if a.length ≥ 4 ∧ (csizeOf (a.take 4)).natAbs > 1048576 then [.err "toobig"] else
   let (ret, x, _) := mpz_inp_raw fresh s junk0
   if ¬ x.WF then [natTok ret, .err "malformed"]
   else if ret = 0 then [natTok 0, natTok 1] else [natTok ret, .num x.toInt]
@@ -107,6 +107,9 @@ private def mpfVal (size exp : Int) (limbs : List Nat) : Bool × Nat × Int :=
 private def mpfEq (a b : Bool × Nat × Int) : Bool :=
   (a.2.1 == 0 && b.2.1 == 0) || (a.1 == b.1 && scaledEq a.2.1 2 (a.2.2 - b.2.2) b.2.1 0)
 
+/-- `a · b^p` as a fraction -/
+private def qOf (a b : Nat) (p : Int) : Nat × Nat := (a * b ^ p.toNat, b ^ (-p).toNat)
+
 /-- parse `[-]0.<digits>(e|@)<exp>`: (negative, digit values, exponent) -/
 private def parseMpfText (base : Nat) (t : List Nat) : Option (Bool × List Nat × Int) :=
   let (neg, t) := match t with | 45 :: r => (true, r) | _ => (false, t)
@@ -155,11 +158,11 @@ def pred : PredHandler
                  else if [a1, a2, a3] == [b1, b2, b3] then some none else some (some "value differs from mpf_set_str on the token")
              | _ => some (some "unexpected output shape"))
       | _ => some (some "unexpected output shape")
-  | "mpf_out_inp_str", [.num base, .num _nd, .num _prec, .num size, .num exp, .vec limbs], impl =>
+  | "mpf_out_inp_str", [.num base, .num nd, .num prec, .num size, .num exp, .vec limbs], impl =>
       match impl with
       | [.num wret, .str text, .num rret, .num size', .num exp', .vec limbs'] =>
           let t := ofU8 text
-          let b := if base = 0 then 10 else base.toNat
+          let b := if base = 0 then 10 else base.natAbs
           if wret ≠ t.length then some (some "out_str byte count") else
           if rret ≠ wret then some (some "inp_str byte count differs from out_str's") else
           match parseMpfText b t with
@@ -168,10 +171,17 @@ def pred : PredHandler
               let orig := mpfVal size exp limbs
               let back := mpfVal size' exp' limbs'
               let D := digitsVal b ds
-              -- text denotes ±D·b^(e - #digits)
-              let exact := (D == 0 && orig.2.1 == 0) ||
-                (neg == orig.1 && scaledEq D b (e - ds.length) orig.2.1 orig.2.2)
+              -- text denotes ±D·b^(e - #digits); as a fraction
+              let tq := qOf D b (e - ds.length)
+              let oq := qOf orig.2.1 2 orig.2.2
+              let exact := tq.1 * oq.2 == oq.1 * tq.2
+              -- digits the call must deliver: min (n_digits, what the precision carries), manual of mpf_out_str
+              let maxd := ((((prec.toNat - 1) * 64 : Nat).toFloat * Float.log 2 / Float.log b.toFloat).floor).toUInt64.toNat
+              let dd := if nd = 0 then maxd else min nd.toNat maxd
+              let errq := qOf 1 b (e - dd)
+              let diff := (tq.1 * oq.2 : Int) - (oq.1 * tq.2 : Int)
               if orig.2.1 ≠ 0 ∧ neg ≠ orig.1 then some (some "sign")
+              else if diff.natAbs * errq.2 > errq.1 * (tq.2 * oq.2) then some (some "printed value is further than one unit of the last requested digit from the operand")
               else if exact ∧ ¬ mpfEq orig back then some (some "exact text did not read back to the same value")
               else some none
       | _ => some (some "unexpected output shape")
